@@ -10,9 +10,11 @@ PID = "C37"
 LEVEL = "exploration"
 N = {"quick": 200, "thorough": 3000}
 RULE = ("Generated shared objects with 1-400 exported functions and variables (identifier lengths 1-40, about 20% with a "
-        "default symbol version from a version script), linked by ld.bfd or ld.lld with --hash-style=sysv, gnu or both "
+        "default symbol version from a version script, and about 8% of the functions present under two or three versions -- "
+        "n@VERS_1, n@@VERS_2: several .dynsym entries of one name), linked by ld.bfd or ld.lld with --hash-style=sysv, gnu or both "
         "(lld places .gnu.hash before .hash, bfd after). Queries to `abisym`: every defined dynamic symbol (up to 40 per "
-        "object, always including the first and last of .dynsym) must be found, with the version readelf shows; absent names "
+        "object, always including the first and last of .dynsym) must be found, and the set of versions abisym prints must equal the set of versions of the .dynsym entries of that name "
+        "that readelf shows; absent names "
         "built to fall into occupied SysV buckets / GNU buckets and to pass the GNU bloom filter (hash functions and table "
         "geometry re-implemented in Python from the ELF bytes) must not be found. Non-trivial = at least one colliding absent "
         "query; distinct by SHA-1 of (case); all six linker x style cells are generated.")
@@ -86,22 +88,33 @@ def run_case(case, cx):
            "typedef", "union", "unsigned", "void", "volatile", "while", "inline", "restrict", "asm", "typeof", "main"}
     names = [n for n in names if n not in ckw]
     ver = {}
+    multi = {}
     src = []
     for k, n in enumerate(names):
         if rnd.random() < 0.3:
             src.append("int %s = %d;" % (n, k))
+        elif rnd.random() < 0.12 and case.get("multi", True):
+            # one name with two or three versions (n@VERS_1, [n@VERS_2,] n@@VERS_k): several .dynsym entries with the same
+            # name, which a hash chain holds one after the other
+            nv = rnd.choice([2, 2, 3])
+            multi[n] = nv
+            for j in range(1, nv + 1):
+                src.append("int impl%d_%d(void) { return %d; }" % (k, j, k + j))
+                src.append('__asm__(".symver impl%d_%d,%s%s%s");' % (k, j, n, "@@" if j == nv else "@", "VERS_%d" % j))
         else:
             src.append("int %s(void) { return %d; }" % (n, k))
-        if rnd.random() < 0.2:
-            ver[n] = rnd.choice(["VERS_1", "VERS_2"])
+            if rnd.random() < 0.2:
+                ver[n] = rnd.choice(["VERS_1", "VERS_2"])
     d = cx.dir()
     cbuild.write_files(d, {"lib.c": "\n".join(src) + "\n"})
     ld = ["-shared", "-Wl,--hash-style=" + case["hash"]]
-    if ver:
+    if ver or multi:
         vs = []
         prev = None
-        for v in sorted(set(ver.values())):
-            vs.append("%s { global: %s }%s;" % (v, " ".join(n + ";" for n in sorted(ver) if ver[n] == v), (" " + prev) if prev else ""))
+        allv = set(ver.values()) | set("VERS_%d" % j for n, nv in multi.items() for j in range(1, nv + 1))
+        for v in sorted(allv):
+            globs = sorted([n for n in ver if ver[n] == v] + [n for n, nv in multi.items() if int(v[5:]) <= nv])
+            vs.append("%s { global: %s }%s;" % (v, " ".join(n + ";" for n in globs), (" " + prev) if prev else ""))
             prev = v
         open(d + "/vers.map", "w").write("\n".join(vs) + "\n")
         ld.append("-Wl,--version-script=vers.map")
@@ -119,7 +132,10 @@ def run_case(case, cx):
     cx.cls("cell=%s/%s" % (case["linker"], case["hash"]), "order=" + ">".join(hs["order"]), "nsyms=%s" % ("1-30" if case["n"] <= 30 else "31-400"))
     present = set(s.name for s in dyn)
     # queries for present symbols
-    q = dyn[:1] + dyn[-1:] + rnd.sample(dyn, min(len(dyn), 38))
+    q = dyn[:1] + dyn[-1:] + rnd.sample(dyn, min(len(dyn), 34))
+    mv = sorted(set(x.name for x in dyn if sum(1 for y in dyn if y.name == x.name) > 1))
+    q += [x for x in dyn if x.name in mv[:4] and x.default]
+    cx.cls("multi_version_names=%s" % ("0" if not mv else "1+"))
     det = {"case": case, "hash_sections": hs["order"], "n_dynsyms": len(dyn)}
     for s in q:
         r = cbuild.tool("abisym", [b, s.name])
@@ -131,9 +147,10 @@ def run_case(case, cx):
         if not txt.startswith("found symbol '%s'" % s.name):
             cx.violation("defined-symbol-not-found", dict(det, query=s.name, run=r.brief()))
             return
-        m = re.search(r"of version '([^']*)'", txt)
-        if (m.group(1) if m else None) != s.version:
-            cx.violation("version-mismatch", dict(det, query=s.name, expected_version=s.version, run=r.brief()))
+        got = set(re.findall(r"'([^']*)'", txt.split(", of version", 1)[1])) if ", of version" in txt else set()
+        want = set(x.version for x in dyn if x.name == s.name and x.version)
+        if got - {""} != want:
+            cx.violation("version-mismatch", dict(det, query=s.name, expected_versions=sorted(want), run=r.brief()))
             return
     # absent names that collide
     occupied_sysv = occupied_gnu = None
